@@ -374,3 +374,262 @@ Proof.
       replace (sl * 8 - content)%Z with 0%Z by lia. cbn [Z.to_nat zeros repeat]. rewrite !app_nil_r.
       split; [reflexivity|]. rewrite !app_length, !length_zeros. unfold content in *. repeat split; try lia. exact Hsl.
 Qed.
+
+(* ------------------------------------------------------------------------ *)
+(* decoder side                                                              *)
+(* ------------------------------------------------------------------------ *)
+Lemma read_typed_prefix t n r v r' : read_typed t n r = Ok (v, r') -> exists e, r = e ++ r'.
+Proof.
+  unfold read_typed. destruct t; try discriminate; intros H.
+  - apply bind_ok in H as ([x r1] & H1 & H). injection H as <- <-.
+    unfold read_uint in H1. destruct (n <=? 0)%Z; [discriminate|].
+    apply bind_ok in H1 as ([b r2] & H2 & H1). injection H1 as <- <-.
+    apply take_bits_ok in H2 as [-> _]. eauto.
+  - apply bind_ok in H as ([x r1] & H1 & H). injection H as <- <-.
+    unfold read_bytes in H1. destruct (n / 8 <? 0)%Z; [discriminate|].
+    apply bind_ok in H1 as ([b r2] & H2 & H1). injection H1 as <- <-.
+    apply take_bits_ok in H2 as [-> _]. eauto.
+  - apply bind_ok in H as ([x r1] & H1 & H). injection H as <- <-.
+    unfold read_bin in H1. destruct (n <? 0)%Z; [discriminate|].
+    apply take_bits_ok in H1 as [-> _]. eauto.
+  - apply bind_ok in H as ([x r1] & H1 & H). injection H as <- <-.
+    destruct r as [|y r]; [discriminate|]. injection H1 as <- <-. exists [y]. reflexivity.
+Qed.
+
+Lemma read_typed_suffix t n r v r' s : read_typed t n r = Ok (v, r') ->
+  read_typed t n (r ++ s) = Ok (v, r' ++ s).
+Proof.
+  unfold read_typed. destruct t; try discriminate; intros H.
+  - apply bind_ok in H as ([x r1] & H1 & H). injection H as <- <-.
+    rewrite (read_uint_suffix _ _ _ _ s H1). reflexivity.
+  - apply bind_ok in H as ([x r1] & H1 & H). injection H as <- <-.
+    unfold read_bytes in *. destruct (n / 8 <? 0)%Z; [discriminate|].
+    apply bind_ok in H1 as ([b r2] & H2 & H1). injection H1 as <- <-.
+    rewrite (take_bits_suffix _ _ _ _ s H2). reflexivity.
+  - apply bind_ok in H as ([x r1] & H1 & H). injection H as <- <-.
+    unfold read_bin in *. destruct (n <? 0)%Z; [discriminate|].
+    rewrite (take_bits_suffix _ _ _ _ s H1). reflexivity.
+  - apply bind_ok in H as ([x r1] & H1 & H). injection H as <- <-.
+    destruct r as [|y r]; [discriminate|]. injection H1 as <- <-. reflexivity.
+Qed.
+
+Lemma read_desc1_ok st acc r : read_desc1 st = Ok (acc, r) ->
+  exists acc0 r0 e id, st = Ok (acc0, r0) /\ acc = id :: acc0 /\ r0 = e ++ r /\ length e = 16%nat /\
+    forall s, read_desc1 (Ok (acc0, r0 ++ s)) = Ok (acc, r ++ s).
+Proof.
+  unfold read_desc1. intros H. apply bind_ok in H as ([acc0 r0] & -> & H).
+  apply bind_ok in H as ([f r1] & H1 & H). apply bind_ok in H as ([x r2] & H2 & H).
+  apply bind_ok in H as ([y r3] & H3 & H). injection H as <- <-.
+  exists acc0, r0.
+  assert (P : forall w a b v, read_uint w a = Ok (v, b) -> (0 < w)%Z -> exists e, a = e ++ b /\ length e = Z.to_nat w).
+  { intros w a b v Hr Hw. unfold read_uint in Hr. destruct (w <=? 0)%Z; [discriminate|].
+    apply bind_ok in Hr as ([bb rr] & Ht & Hr). injection Hr as _ <-.
+    apply take_bits_ok in Ht as [-> L]. eauto. }
+  destruct (P _ _ _ _ H1 ltac:(lia)) as (e1 & E1 & L1).
+  destruct (P _ _ _ _ H2 ltac:(lia)) as (e2 & E2 & L2).
+  destruct (P _ _ _ _ H3 ltac:(lia)) as (e3 & E3 & L3).
+  exists (e1 ++ e2 ++ e3). eexists. split; [reflexivity|]. split; [reflexivity|].
+  split; [rewrite <- !app_assoc; congruence|].
+  split; [rewrite !app_length, L1, L2, L3; reflexivity|].
+  intros s. cbn [bind]. rewrite (read_uint_suffix _ _ _ _ s H1). cbn [bind].
+  rewrite (read_uint_suffix _ _ _ _ s H2). cbn [bind]. rewrite (read_uint_suffix _ _ _ _ s H3). reflexivity.
+Qed.
+
+Lemma read_desc1_err e : read_desc1 (Err e) = Err e.
+Proof. reflexivity. Qed.
+
+Lemma iter_read_desc1_ok n : forall acc0 r0 acc r,
+  N.iter n read_desc1 (Ok (acc0, r0)) = Ok (acc, r) ->
+  exists e, r0 = e ++ r /\ length e = (16 * N.to_nat n)%nat /\
+    forall s, N.iter n read_desc1 (Ok (acc0, r0 ++ s)) = Ok (acc, r ++ s).
+Proof.
+  induction n as [|n IH] using N.peano_ind; intros acc0 r0 acc r.
+  - cbn. intros E; injection E as <- <-. exists []. split; [reflexivity|]. split; [reflexivity|]. reflexivity.
+  - rewrite N.iter_succ. intros H.
+    destruct (N.iter n read_desc1 (Ok (acc0, r0))) as [[acc1 r1]|err] eqn:E1; [|discriminate].
+    apply read_desc1_ok in H as (acc2 & r2 & e2 & id & Hst & -> & -> & L2 & G2).
+    injection Hst as -> ->.
+    destruct (IH _ _ _ _ E1) as (e1 & -> & L1 & G1).
+    exists (e1 ++ e2). rewrite <- app_assoc. split; [reflexivity|].
+    split; [rewrite app_length, L1, L2; lia|].
+    intros s. rewrite N.iter_succ. rewrite <- app_assoc. rewrite (app_assoc e1), G1. apply G2.
+Qed.
+
+Lemma read_descs_ok n r ids r' : read_descs n r = Ok (ids, r') ->
+  exists e, r = e ++ r' /\ forall s, read_descs n (r ++ s) = Ok (ids, r' ++ s).
+Proof.
+  unfold read_descs. intros H. apply bind_ok in H as ([acc r1] & H1 & H). injection H as <- <-.
+  apply iter_read_desc1_ok in H1 as (e & -> & _ & G). exists e. split; [reflexivity|].
+  intros s. rewrite G. reflexivity.
+Qed.
+
+Local Ltac sub_same :=
+  match goal with |- context [(?a + ?b - (?c + ?b))%nat] =>
+    replace (a + b - (c + b))%nat with (a - c)%nat by lia end; reflexivity.
+
+Section DecoderProofs.
+Variable decode_data : list (pname * pvalue) -> reader -> result (bits * reader).
+(* the one thing assumed of the template decoder: it reads the stream from the
+   front — what it returns is the prefix it consumed, and what follows the bits
+   it consumed does not influence it *)
+Hypothesis decode_data_prefix : forall p r b r', decode_data p r = Ok (b, r') -> r = b ++ r'.
+Hypothesis decode_data_suffix : forall p r b r' s,
+  decode_data p r = Ok (b, r') -> decode_data p (r ++ s) = Ok (b, r' ++ s).
+
+Lemma decode_params_ok all ps : forall start env props r env' props' r',
+  decode_params decode_data all ps start env props r = Ok (env', props', r') ->
+  (exists e, r = e ++ r') /\
+  (exists new, env' = env ++ new) /\
+  forall s, decode_params decode_data all ps (start + length s) env props (r ++ s) = Ok (env', props', r' ++ s).
+Proof.
+  induction ps as [|p ps IH]; intros start env props r env' props' r'; cbn [decode_params].
+  - intros E; injection E as <- <- <-. split; [exists []; reflexivity|].
+    split; [exists []; rewrite app_nil_r; reflexivity|reflexivity].
+  - intros H. apply bind_ok in H as ([v r1] & Hv & H). apply bind_ok in H as (u & Hc & H).
+    apply IH in H as ((e2 & E2) & (new & En) & G).
+    assert (Hv' : (exists e1, r = e1 ++ r1) /\ forall s,
+      match p_type p with
+      | TDescs =>
+          let* sl := declared_length all env in
+          let* (ids, r'0) := read_descs ((sl - Z.of_nat (start + length s - length (r ++ s)) / 8) / 2) (r ++ s) in
+          Ok (PDescs ids, r'0)
+      | TData => let* (b, r'0) := decode_data props (r ++ s) in Ok (PData b, r'0)
+      | t => if (p_nbits p =? 0)%Z
+             then let* sl := declared_length all env in
+                  read_typed t (sl * 8 - Z.of_nat (start + length s - length (r ++ s))) (r ++ s)
+             else read_typed t (p_nbits p) (r ++ s)
+      end = Ok (v, r1 ++ s)).
+    { assert (Hsub : forall s, (start + length s - length (r ++ s))%nat = (start - length r)%nat)
+        by (intros s; rewrite app_length; lia).
+      assert (Hgen : forall t, (if (p_nbits p =? 0)%Z
+               then let* sl := declared_length all env in read_typed t (sl * 8 - Z.of_nat (start - length r)) r
+               else read_typed t (p_nbits p) r) = Ok (v, r1) ->
+              (exists e1, r = e1 ++ r1) /\ forall s,
+              (if (p_nbits p =? 0)%Z
+               then let* sl := declared_length all env in
+                    read_typed t (sl * 8 - Z.of_nat (start + length s - length (r ++ s))) (r ++ s)
+               else read_typed t (p_nbits p) (r ++ s)) = Ok (v, r1 ++ s)).
+      { intros t Ht. destruct (p_nbits p =? 0)%Z.
+        - apply bind_ok in Ht as (sl & Hsl & Ht). split; [eapply read_typed_prefix; exact Ht|].
+          intros s. rewrite Hsl. cbn [bind]. rewrite Hsub. apply read_typed_suffix, Ht.
+        - split; [eapply read_typed_prefix; exact Ht|]. intros s. apply read_typed_suffix, Ht. }
+      destruct (p_type p); try (apply Hgen; exact Hv).
+      - apply bind_ok in Hv as (sl & Hsl & Hv). apply bind_ok in Hv as ([ids r2] & Hd & Hv).
+        injection Hv as <- <-. apply read_descs_ok in Hd as (e1 & -> & Gd).
+        split; [eauto|]. intros s. rewrite Hsl. cbn [bind]. rewrite Hsub, Gd. reflexivity.
+      - apply bind_ok in Hv as ([b r2] & Hd & Hv). injection Hv as <- <-.
+        split; [exists b; eapply decode_data_prefix; exact Hd|].
+        intros s. rewrite (decode_data_suffix _ _ _ _ s Hd). reflexivity. }
+    destruct Hv' as [(e1 & E1) Gv].
+    split; [exists (e1 ++ e2); rewrite E1, E2, app_assoc; reflexivity|].
+    split; [exists ([(p_name p, v)] ++ new); rewrite En, app_assoc; reflexivity|].
+    intros s. specialize (Gv s). cbv zeta in Gv |- *. rewrite Gv. cbn [bind]. rewrite Hc. cbn [bind]. apply G.
+Qed.
+
+Lemma declared_length_value all env sl : declared_length all env = Ok sl ->
+  has_param Nsection_length all = true /\ prop_get Nsection_length env = Some (PUint sl).
+Proof.
+  unfold declared_length. destruct (has_param Nsection_length all); [|discriminate].
+  destruct (prop_get Nsection_length env) as [[z| | | | |]|]; try discriminate.
+  intros E; injection E as <-. auto.
+Qed.
+
+(* everything decode_section does, in one statement: it consumes a prefix e of
+   the reader, the section's extent is |e|, a section with a declared length
+   consumes exactly 8 * declared bits, and nothing depends on what follows *)
+Lemma decode_section_ok c props r sec props' r' :
+  decode_section decode_data c props r = Ok (sec, props', r') ->
+  exists e, r = e ++ r' /\ sec_nbits sec = length e /\
+    sec_index sec = s_index c /\ sec_params sec = s_params c /\
+    (has_param Nsection_length (s_params c) = true ->
+       exists sl, prop_get Nsection_length (sec_values sec) = Some (PUint sl) /\
+                  Z.of_nat (length e) = (8 * sl)%Z) /\
+    forall s, decode_section decode_data c props (r ++ s) = Ok (sec, props', r' ++ s).
+Proof.
+  unfold decode_section. intros H.
+  apply bind_ok in H as ([[env props1] r1] & Hp & H).
+  destruct (decode_params_ok _ _ _ _ _ _ _ _ _ Hp) as ((e1 & E1) & _ & G).
+  apply bind_ok in H as (r2 & H2 & H). injection H as <- <- <-.
+  cbn [sec_nbits sec_index sec_params sec_values].
+  assert (Hc : Z.of_nat (length r - length r1) = Z.of_nat (length e1)) by (rewrite E1, app_length; lia).
+  destruct (has_param Nsection_length (s_params c)) eqn:Hhas.
+  - apply bind_ok in H2 as (sl & Hsl & H2).
+    destruct (declared_length_value _ _ _ Hsl) as [_ Hget].
+    rewrite Hc in H2.
+    destruct (Z.ltb_spec 0 (sl * 8 - Z.of_nat (length e1))).
+    + apply bind_ok in H2 as ([b r3] & H3 & H2). injection H2 as ->.
+      unfold read_bin in H3. destruct (Z.ltb_spec (sl * 8 - Z.of_nat (length e1)) 0); [lia|].
+      pose proof (fun s => take_bits_suffix _ _ _ _ s H3) as G3.
+      pose proof (take_bits_ok _ _ _ _ H3) as [E3 L3].
+      exists (e1 ++ b). split; [rewrite E1, E3, <- app_assoc; reflexivity|].
+      assert (Hlr : length r = (length e1 + length b + length r2)%nat)
+        by (rewrite E1, E3, !app_length; lia).
+      split; [rewrite app_length; lia|]. split; [reflexivity|]. split; [reflexivity|].
+      split; [intros _; exists sl; split; [exact Hget|rewrite app_length; lia]|].
+      intros s. rewrite app_length. rewrite (G s). cbn [bind]. rewrite Hsl. cbn [bind].
+      replace (Z.of_nat (length r + length s - length (r1 ++ s))) with (Z.of_nat (length e1))
+        by (rewrite E1, !app_length; lia).
+      destruct (Z.ltb_spec 0 (sl * 8 - Z.of_nat (length e1))); [|lia].
+      unfold read_bin. destruct (Z.ltb_spec (sl * 8 - Z.of_nat (length e1)) 0); [lia|].
+      rewrite G3. cbn [bind]. rewrite !app_length. sub_same.
+    + destruct (Z.ltb_spec (sl * 8 - Z.of_nat (length e1)) 0); [discriminate|]. injection H2 as <-.
+      exists e1. split; [exact E1|]. split; [lia|]. split; [reflexivity|]. split; [reflexivity|].
+      split; [intros _; exists sl; split; [exact Hget|lia]|].
+      intros s. rewrite app_length. rewrite (G s). cbn [bind]. rewrite Hsl. cbn [bind].
+      replace (Z.of_nat (length r + length s - length (r1 ++ s))) with (Z.of_nat (length e1))
+        by (rewrite E1, !app_length; lia).
+      destruct (Z.ltb_spec 0 (sl * 8 - Z.of_nat (length e1))); [lia|].
+      destruct (Z.ltb_spec (sl * 8 - Z.of_nat (length e1)) 0); [lia|]. cbn [bind].
+      rewrite !app_length. sub_same.
+  - injection H2 as <-. exists e1. split; [exact E1|]. split; [lia|]. split; [reflexivity|].
+    split; [reflexivity|]. split; [discriminate|].
+    intros s. rewrite app_length, (G s). cbn [bind]. rewrite !app_length. sub_same.
+Qed.
+
+(* C04 decode_consumes_declared *)
+Theorem decode_consumes_declared : forall c props r sec props' r',
+  has_param Nsection_length (s_params c) = true ->
+  decode_section decode_data c props r = Ok (sec, props', r') ->
+  exists sl e, prop_get Nsection_length (sec_values sec) = Some (PUint sl) /\
+    r = e ++ r' /\ Z.of_nat (length e) = (8 * sl)%Z /\ sec_nbits sec = length e.
+Proof.
+  intros c props r sec props' r' Hhas H.
+  apply decode_section_ok in H as (e & E & Hn & _ & _ & Hsl & _).
+  destruct (Hsl Hhas) as (sl & Hget & Hl). exists sl, e. auto.
+Qed.
+
+(* forward direction: parameters read, declared >= content, enough stream *)
+Theorem decode_consumes_declared_fwd : forall c props r env props1 r1 sl,
+  decode_params decode_data (s_params c) (s_params c) (length r) [] props r = Ok (env, props1, r1) ->
+  declared_length (s_params c) env = Ok sl ->
+  (Z.of_nat (length r - length r1) <= sl * 8 <= Z.of_nat (length r))%Z ->
+  exists sec r2, decode_section decode_data c props r = Ok (sec, props1, r2) /\
+    Z.of_nat (length r - length r2) = (sl * 8)%Z /\ Z.of_nat (sec_nbits sec) = (sl * 8)%Z.
+Proof.
+  intros c props r env props1 r1 sl Hp Hsl Hrange. unfold decode_section. rewrite Hp. cbn [bind].
+  destruct (declared_length_value _ _ _ Hsl) as [Hhas _]. rewrite Hhas, Hsl. cbn [bind].
+  destruct (decode_params_ok _ _ _ _ _ _ _ _ _ Hp) as ((e1 & E1) & _ & _).
+  destruct (Z.ltb_spec 0 (sl * 8 - Z.of_nat (length r - length r1))).
+  - unfold read_bin. destruct (Z.ltb_spec (sl * 8 - Z.of_nat (length r - length r1)) 0); [lia|].
+    unfold take_bits. destruct (Nat.ltb_spec (length r1) (Z.to_nat (sl * 8 - Z.of_nat (length r - length r1)))).
+    + exfalso. rewrite E1, app_length in *. lia.
+    + cbn [bind]. eexists. eexists. split; [reflexivity|]. cbn [sec_nbits].
+      rewrite skipn_length. rewrite E1, app_length in *. lia.
+  - destruct (Z.ltb_spec (sl * 8 - Z.of_nat (length r - length r1)) 0); [lia|]. cbn [bind].
+    eexists. eexists. split; [reflexivity|]. cbn [sec_nbits]. lia.
+Qed.
+
+(* C04 decode_overrun_error: a declared length shorter than the content *)
+Theorem decode_overrun_error : forall c props r env props1 r1 sl,
+  decode_params decode_data (s_params c) (s_params c) (length r) [] props r = Ok (env, props1, r1) ->
+  declared_length (s_params c) env = Ok sl ->
+  (sl * 8 < Z.of_nat (length r - length r1))%Z ->
+  decode_section decode_data c props r = Err ELib.
+Proof.
+  intros c props r env props1 r1 sl Hp Hsl Hlt. unfold decode_section. rewrite Hp. cbn [bind].
+  destruct (declared_length_value _ _ _ Hsl) as [Hhas _]. rewrite Hhas, Hsl. cbn [bind].
+  destruct (Z.ltb_spec 0 (sl * 8 - Z.of_nat (length r - length r1))); [lia|].
+  destruct (Z.ltb_spec (sl * 8 - Z.of_nat (length r - length r1)) 0); [reflexivity|lia].
+Qed.
+
+End DecoderProofs.
